@@ -187,6 +187,8 @@ pub enum Act {
     IntoIter(Script),
     /// drops the buffer inside the call window (terminal)
     DropBuf,
+    /// into_iter, run the script, clone the owning iterator, drain the clone then the original (terminal)
+    IntoIterClone(Script),
     // ---- observers
     Get(usize),
     NthFront(usize),
@@ -261,6 +263,7 @@ impl Act {
             CloneFrom(..) => "clone_from",
             IntoIter(_) => "into_iter",
             DropBuf => "drop_buffer",
+            IntoIterClone(_) => "into_iter_clone",
             Get(_) => "get",
             NthFront(_) => "nth_front",
             NthBack(_) => "nth_back",
@@ -303,7 +306,7 @@ impl Act {
                 s.bits as usize,
                 s.len as usize,
             ],
-            IntoIter(s) | Iter(s) | IterMut(s) => vec![s.bits as usize, s.len as usize],
+            IntoIter(s) | Iter(s) | IterMut(s) | IntoIterClone(s) => vec![s.bits as usize, s.len as usize],
             _ => vec![],
         }
     }
@@ -377,6 +380,7 @@ impl Act {
             "clone_from" => CloneFrom(a(0)?, a(1)?),
             "into_iter" => IntoIter(sc()?),
             "drop_buffer" => DropBuf,
+            "into_iter_clone" => IntoIterClone(sc()?),
             "get" => Get(a(0)?),
             "nth_front" => NthFront(a(0)?),
             "nth_back" => NthBack(a(0)?),
